@@ -89,10 +89,11 @@ class IVFCLevel4Reader(RawIOBase):
 
     @_raise_if_level_closed
     def read(self, size: int = -1) -> bytes:
-        if size == -1:
-            size = self._lv4.size
+        if size < 0 or self._seek + size > self._lv4.size:
+            # read until the end of the level
+            size = self._lv4.size - self._seek
 
-        if self._seek >= self._lv4.size:
+        if size <= 0:
             # avoid sending useless requests past the file
             return b''
 
